@@ -237,6 +237,13 @@ def probe_layer() -> J:
     dobjs.append(_struct("st_item", [p_value("k", "u8"), p_value("v", "u16le")]))
     dobjs.append({"t": "SFIELD", "name": "sf3", "struct": "st_item", "n": 3, "item_size": 4})
     rq("p_static", [sid(), p_value("f", "sf3"), u8const("tail", 0x99)], "static-field")
+    # static field whose items list their explicitly positioned parameters out of order (the
+    # cursor sits inside the item when the item gets padded)
+    dobjs.append(_struct("st_ooo", [p_value("late", "u8", byte=3), u8const("mid", 0xDB, byte=1),
+                                    p_value("early", "u8", byte=0)]))
+    dobjs.append({"t": "SFIELD", "name": "sf_ooo", "struct": "st_ooo", "n": 2, "item_size": 5})
+    rq("p_static_ooo", [sid(), p_value("f", "sf_ooo"), u8const("tail", 0x98)],
+       "static-field-items-out-of-order")
     # 3 dynamic length field
     dobjs.append({"t": "DLFIELD", "name": "dlf", "struct": "st_item", "offset": 1, "cnt_dop": "u8",
                   "cnt_byte": 0, "cnt_bit": None})
@@ -382,7 +389,12 @@ def compose_layer(idx: int, r: random.Random, n_msgs: int, depth: int) -> J:
                 p["byte"] = cur
                 cur += _psize(p, by()) + r.choice([0, 0, 1])
             r.shuffle(params)
-        if r.random() < 0.25 and all(_fixed(p, by()) for p in params):
+            # where the next object goes after a structure whose last *listed* parameter is not
+            # its last *byte* is not settled by the ODX text (odxtools and the reference both
+            # continue after the last listed one, i.e. inside the structure): such structures
+            # are closed by an explicit BYTE-SIZE
+            bs = _size(params, by()) + r.randrange(0, 3)
+        elif r.random() < 0.25 and all(_fixed(p, by()) for p in params):
             bs = _size(params, by()) + r.randrange(0, 3)
         dobjs.append(_struct(name, params, bs))
         return name
